@@ -97,3 +97,66 @@ Proof.
   eapply Forall_impl; [|exact W]. intros d Hd. apply parse_print_line. exact Hd.
 Qed.
 Print Assumptions c03_lines_parse_to_documents.
+
+(* ---- split mode and everything else: the records in terms of the entry, for EVERY entry and configuration.
+   `route c dims` says where a metric goes (None = the record without per-metric dimensions: no dimensions, or the
+   formatter ignores them; Some key = the record of the sorted dimension list); `members_for` / `decls_for` list, in entry
+   order, the (name, JSON value) members and the declarations of the metrics with a usable value routed there. *)
+From MV Require Import Emf.ContentSplit.
+
+(* every emitted record is one of the two kinds and carries exactly those members and declarations (plus metadata,
+   dimension-key members and the entry's strings, by the definitions of global_doc / set_doc) *)
+Theorem c03_records_exactly : forall c mult e now ftab d,
+  In d (emf_docs c mult e now ftab) ->
+  (exists a, d = global_doc c (doc_ts e now) a /\
+             a_members a = members_for c ftab mult None e /\ a_decls a = decls_for c ftab mult None e /\
+             a_strings a = strings_of e) \/
+  (exists s, d = set_doc c (doc_ts e now) (strings_of e) s /\ routed_to c (as_key s) e = true /\
+             as_members s = members_for c ftab mult (Some (as_key s)) e /\ as_members s <> [] /\
+             as_decls s = decls_for c ftab mult (Some (as_key s)) e).
+Proof. exact docs_content. Qed.
+Print Assumptions c03_records_exactly.
+
+(* conversely, a metric with a usable value is a member of the record it is routed to, that record is emitted, and the
+   metric is declared there unless flagged no-metric *)
+Theorem c03_metric_in_its_record : forall c mult e now ftab n os u dims fl v,
+  In (IValue n (VMetric os u dims fl)) e -> metric_value ftab mult os = Some v ->
+  match route c dims with
+  | None => exists a, In (global_doc c (doc_ts e now) a) (emf_docs c mult e now ftab) /\ In (n, v) (a_members a) /\
+                      (fl <> FNoMetric -> In (metric_decl n u fl) (a_decls a))
+  | Some key => exists s, In (set_doc c (doc_ts e now) (strings_of e) s) (emf_docs c mult e now ftab) /\ as_key s = key /\
+                          In (n, v) (as_members s) /\ (fl <> FNoMetric -> In (metric_decl n u fl) (as_decls s))
+  end.
+Proof. exact metric_in_its_record. Qed.
+Print Assumptions c03_metric_in_its_record.
+
+(* the state of the reference interpretation after an entry, in terms of the entry *)
+Theorem c03_abuild_content : forall c ftab mult e,
+  let a := abuild c ftab mult e in
+  a_members a = members_for c ftab mult None e /\
+  a_decls a = decls_for c ftab mult None e /\
+  forall key,
+    match as_find (a_sets a) key with
+    | Some s => routed_to c key e = true /\ as_key s = key /\
+                as_members s = members_for c ftab mult (Some key) e /\ as_decls s = decls_for c ftab mult (Some key) e
+    | None => routed_to c key e = false
+    end.
+Proof. exact abuild_content. Qed.
+Print Assumptions c03_abuild_content.
+
+(* dimension-set records have pairwise different keys: one record per distinct sorted dimension list *)
+Theorem c03_one_record_per_dimension_list : forall c ftab mult e, NoDup (map as_key (a_sets (abuild c ftab mult e))).
+Proof. exact abuild_keys_nodup. Qed.
+Print Assumptions c03_one_record_per_dimension_list.
+
+Example c03_example_split :
+  let e := [ITimestamp 5000000; IConfig CSplit; IValue (bs "k") (VString (bs "s"));
+            IValue (bs "g") (VMetric [OUnsigned 1] UNone [] FNone);
+            IValue (bs "m") (VMetric [OUnsigned 2] UNone [(bs "d", bs "v")] FNoMetric);
+            IValue (bs "x") (VMetric [OFloat 9221120237041090560] UNone [(bs "d", bs "v")] FNone)] in
+  let c := mk_config false false false [bs "ns"] [[]] [] None false in
+  (members_for c [] None (Some [(bs "d", bs "v")]) e = [(bs "m", JNum (bs "2"))]) /\
+  (decls_for c [] None (Some [(bs "d", bs "v")]) e = []) /\
+  (members_for c [] None None e = [(bs "g", JNum (bs "1"))]) /\
+  (length (emf_docs c None e 0%N []) = 2%nat).
+Proof. vm_compute. repeat split; reflexivity. Qed.
